@@ -117,6 +117,7 @@ class Contract:
     local_types: Dict[str, Ty] = field(default_factory=dict)  # declared types of locals that start as untyped empties (set(), dict(), OrderedDict())
     fresh_result: bool = False  # the returned object is newly allocated (proved as an obligation, used for distinctness at call sites)
     init_fields: Optional[Callable] = None  # __init__ contracts: (ctx) -> {field: initial value}; used for parallel allocation
+    call_overrides: Dict[str, Callable] = field(default_factory=dict)  # per-target call-site semantics of a callee (key -> apply)
     mutates_args: Tuple[str, ...] = ()  # keyword arguments whose container the callee changes in place (its `apply` stores the new value back; loops havoc the variable)
     init_frame: bool = False  # constructors: "only the new object's entries of the `modifies` fields change" -- an obligation of the body, a fact at call sites
     body_select: Optional[Callable] = None  # region contract: (FunctionDef) -> the statements (a suffix of the real body) that are executed; the parameters are
@@ -356,6 +357,9 @@ def apply_contract(eng: Engine, st: State, c: Contract, args: List[V], kwargs: D
                 raise Unsupported("contract %s covers %d star-arguments, call passes %d" % (c.key, len(ty.args), len(items)), node)
             for nm, it in zip(ty.args, items):
                 argmap[nm] = it
+    ov = getattr(eng.current, "call_overrides", None) if eng.current is not None else None
+    if ov and c.key in ov:
+        return ov[c.key](eng, st, argmap, node)  # the target under verification views this callee through its own (stronger / differently typed) abstraction
     if c.apply is not None:
         return c.apply(eng, st, argmap, node)
     params: Dict[str, V] = {}
